@@ -44,6 +44,8 @@ def mutants_for(pid):
     for meta in sorted(glob.glob(os.path.join(ROOT, "seeded", "*", "meta.json"))):
         with open(meta) as f:
             m = json.load(f)
+        if str(m.get("status", "")).startswith("neutralised"):
+            continue      # a later repo fix removed the behaviour this change relied on: it no longer breaks the property
         if pid in m.get("properties", [m.get("property")]):
             out.append(os.path.join(os.path.dirname(meta), "patch.diff"))
     return out
